@@ -520,6 +520,25 @@ def operations(tier, seed):
                     fail("__add__:source-scene-modified", mname)
             except Exception as ex:  # noqa: BLE001
                 fail("__add__:raised %s" % type(ex).__name__, mname, str(ex)[:120])
+            # adding three and four scenes in ONE call (node names collide between all of them)
+            for count in (3, 4):
+                for how in ("append_scenes", "sum"):
+                    cases += 1
+                    parts = [mk() for _ in range(count)]
+                    for k_, part in enumerate(parts):
+                        part.apply_transform(tf.translation_matrix([20.0 * k_, 5.0 * k_, 0]))
+                    sigs = [world_signature(p_) for p_ in parts]
+                    try:
+                        if how == "append_scenes":
+                            c = trimesh.scene.scene.append_scenes(parts)
+                        else:
+                            c = sum(parts[1:], parts[0])
+                        if not _sig_close(world_signature(c), sorted(sum(sigs, []))):
+                            fail("%s[%d scenes]:placements-not-preserved" % (how, count), mname)
+                        if any(not _sig_close(world_signature(p_), sg) for p_, sg in zip(parts, sigs)):
+                            fail("%s[%d scenes]:source-scene-modified" % (how, count), mname)
+                    except Exception as ex:  # noqa: BLE001
+                        fail("%s[%d scenes]:raised %s" % (how, count, type(ex).__name__), mname, str(ex)[:120])
             # subscene of an inner node
             s = mk()
             for node in list(s.graph.nodes):
@@ -547,6 +566,6 @@ def operations(tier, seed):
                 except Exception as ex:  # noqa: BLE001
                     fail("subscene:raised %s" % type(ex).__name__, mname, str(ex)[:120])
     fails = sorted(cells.values(), key=lambda c: c["cell"])
-    r = common.result(cases, cases, fails, "%d scenes x (9 copy-like operations, rezero, convert_units, +, subscene per node)" % len(scenes(tier)), exhaustive=True)
+    r = common.result(cases, cases, fails, "%d scenes x (9 copy-like operations, rezero, convert_units, +, append_scenes / sum of 3 and 4 scenes, subscene per node)" % len(scenes(tier)), exhaustive=True)
     r["failures"] = fails
     return r
